@@ -220,7 +220,7 @@ func init() {
 					b = 1 // the programs of the two recorded findings: every execution of theirs runs to the horizon
 				}
 				if strings.Contains(sp.Name, "-cancel") {
-					b = bound + 1 // the cancelling thread's placement costs a deviation by itself
+					b = 2 // the cancelling thread's placement costs a deviation by itself (both tiers: d=3 does not fit the budget)
 				}
 				its := specItemsMixed("C17", sp, b, 1, allStrats, nil, c17Oracle)
 				for i := range its {
